@@ -1,0 +1,7 @@
+//go:build !verif
+
+package server
+
+func verifPoint(label, key string) {}
+
+func verifWrapProxy(t *Target) {}
